@@ -554,7 +554,8 @@ func (c *Ctx) checkAssert(label string, cond *Term, known string, pattern *Term)
 		c.shared.mu.Lock()
 		st.Sat++
 		c.shared.mu.Unlock()
-		c.failedOnPath = append(c.failedOnPath, label)
+		// the path continues under the assumption that the assertion holds, so a model of the remaining path
+		// satisfies it: it is not recorded as failed for the path model
 		c.reportViolation("assert", label, "", vec, "")
 		// continue under the assumption that the assertion holds
 		r2 := c.solver.Check(cond, false)
